@@ -1821,6 +1821,17 @@ pub mod widthfx {
         }
         Ok(())
     }
+    fn ensure_fits(value: u64, bit_width: u8) -> Result<(), String> {
+        if bit_width < 64 && value >= (1u64 << bit_width) {
+            return Err("too wide".into());
+        }
+        Ok(())
+    }
+    pub fn ok_build_helper(values: &[u64], sw: u8, out: &mut Vec<u8>) -> Result<(), String> {
+        let base = values[0];
+        ensure_fits(base, sw)?;
+        store_bits_static(out, 0, base, sw)
+    }
     pub fn bad_build(values: &[u64], sw: u8, ow: u8, out: &mut Vec<u8>) -> Result<(), String> {
         let base = values[0];
         store_bits_static(out, 0, base, sw)?;
